@@ -52,7 +52,10 @@ def execute(hist, path):
                         kw["dialect"] = dict(GTF_DIALECT)
                     db = gffutils.create_db([G.real_feature(f) for f in step["feats"]], path, merge_strategy="error", **kw)
                 elif op == "update":
-                    db.update([G.real_feature(f) for f in step["feats"]], make_backup=step["backup"], merge_strategy=step["strategy"])
+                    objs = [G.real_feature(f) for f in step["feats"]]
+                    form = (len(obs) + len(objs)) % 3          # the same features as a list, a one-shot generator, or a DataIterator
+                    data = objs if form == 0 else (o for o in objs) if form == 1 else gffutils.DataIterator(objs)
+                    db.update(data, make_backup=step["backup"], merge_strategy=step["strategy"])
                 elif op == "updatefail":
                     try:
                         db.update(failing_source([G.real_feature(f) for f in step["feats"]], step["failAt"]), make_backup=True,
@@ -62,9 +65,14 @@ def execute(hist, path):
                         st = "failed"
                 elif op == "delete":
                     ids = [dec(i) for i in step["ids"]]
-                    db.delete(ids[0] if len(ids) == 1 else ids, make_backup=step["backup"])
+                    form = len(obs) % 3                          # an id, a Feature object, or a list of Features
+                    arg = ids[0] if (form == 0 and len(ids) == 1) else (db[ids[0]] if (form == 1 and len(ids) == 1) else [db[i] for i in ids])
+                    db.delete(arg, make_backup=step["backup"])
                 elif op == "addrel":
-                    db.add_relation(dec(step["p"]), dec(step["c"]), step["l"], child_func=assign_child if step["rewrite"] else None)
+                    pa, ch = dec(step["p"]), dec(step["c"])
+                    if len(obs) % 2:                             # Feature objects instead of ids (look-up failures are the same FeatureNotFoundError)
+                        pa, ch = db[pa], db[ch]
+                    db.add_relation(pa, ch, step["l"], child_func=assign_child if step["rewrite"] else None)
                 elif op == "reopen":
                     db.conn.close()
                     db = gffutils.FeatureDB(path)
